@@ -41,6 +41,7 @@ use crate::sim::{clock, wire};
 use super::c03_codec::{build_hdr, encode, key_of, HdrParams, Key};
 use super::c03_gen::{Keyring, GROUP_IDS, S_NODE};
 use super::c03_node::build_keyring_and_node;
+use super::c10_twins::*;
 
 // ---------------------------------------------------------------------------------------------
 // Constants
@@ -88,6 +89,8 @@ pub const PROBE_BOUND_MS: u64 = 30_000;
 pub const IDLE_WAIT_MS: u64 = 60_000;
 pub const TAIL_MS: u64 = 100_000;
 pub const TAIL_WINDOW_MS: u64 = 30_000;
+/// Built against rs-matter's smallest table configuration (3 sessions x 3 exchanges per session).
+pub const SMALL_TABLES: bool = cfg!(feature = "small-tables");
 
 // Handler behaviours (chosen by the sender of a message, carried in the payload)
 pub const M_NORMAL: u8 = 0; // reliable answer
@@ -98,6 +101,8 @@ pub const M_DROP: u8 = 4; // drop the exchange without answering
 pub const M_ACK_DROP: u8 = 5; // explicit ack, then drop
 pub const M_HOLD_RX: u8 = 6; // keep the RX message (the node's single RX slot) for hold_ms, then answer
 pub const M_HOLD_DROP: u8 = 7; // sleep hold_ms holding the exchange, then drop it
+pub const M_NEXT: u8 = 8; // no answer: wait for the next message of the exchange (a handshake-like responder)
+pub const M_HOLD_NEXT: u8 = 9; // owner busy for hold_ms (not receiving), then waits for the next message
 
 // ---------------------------------------------------------------------------------------------
 // Parameters
@@ -205,6 +210,8 @@ pub struct Params {
     pub fill: bool,
     pub shuffle: bool,
     pub slots: usize,
+    /// the "twins" family: several peers open an exchange with the same id at one node (c10_twins.rs)
+    pub twins: Option<TwinSpec>,
 }
 
 // ---------------------------------------------------------------------------------------------
@@ -216,7 +223,7 @@ const PAYLOAD_HDR: usize = 16;
 
 #[derive(Clone, Copy, Debug, PartialEq, Eq)]
 pub struct Tag {
-    /// 0 = A, 1 = B, 2 = H
+    /// peer code of the sender: 0 = A, 1 = B, 2 = H, 3 = H2, 0x10 + k = unsecured twin peer k
     pub src: u8,
     pub dst: u8,
     pub sess: u8,
@@ -293,6 +300,9 @@ pub struct HandleInfo {
     pub local_sid: u16,
     pub exch_id: u16,
     pub initiator: bool,
+    /// peer code of the other end of the handle's SESSION, read from the session's peer address
+    /// (and, for unsecured sessions, its peer node id) in the verif snapshot; `P_UNKNOWN` for groups
+    pub peer: u8,
 }
 
 #[derive(Clone, Copy, Debug, PartialEq, Eq)]
@@ -335,6 +345,23 @@ pub enum EvKind {
         ctr: u32,
         skipped: Option<&'static str>,
     },
+    /// what a twin peer put on the wire (c10_twins.rs)
+    Twin {
+        k: u8,
+        peer: u8,
+        kind: TwinKind,
+        sess: u8,
+        exch_id: u16,
+        seq: u16,
+        opener: bool,
+        /// the standalone ack sent ahead of a follow-up
+        sack: bool,
+        op: OpClass,
+        r: bool,
+        ack: Option<u32>,
+        ctr: u32,
+        skipped: Option<&'static str>,
+    },
     Expire { node: u8, sess: u8, done: bool },
     Phase(u8),
     /// the probe session did not survive the disturbance phase; a fresh one was installed (or not)
@@ -359,6 +386,10 @@ pub struct ExKey {
     pub local_sid: u16,
     pub exch_id: u16,
     pub initiator: bool,
+    /// rs-matter's internal id of the session instance (0 in keys built by the judge): unsecured
+    /// sessions all have local session id 0, group sessions share ids - exchanges with the same
+    /// exchange id on two of them are two exchanges
+    pub sess_uid: u32,
 }
 
 #[derive(Clone, Copy, Debug)]
@@ -370,6 +401,11 @@ pub struct Interval {
     pub ap_last: u64,
     pub owned_seen: bool,
     pub dropped_seen: bool,
+    /// longest uninterrupted accept-pending episode (consecutive snapshots): (start, length).
+    /// An exchange that is closed and re-opened with the same id between two snapshots (a message
+    /// arriving the moment its handler gives up) is one interval with several episodes.
+    pub ap_longest: (u64, u64),
+    ap_since: Option<u64>,
     mark: u64,
 }
 
@@ -412,7 +448,35 @@ pub fn sess_tag(node: usize, s: &VerifSession) -> u8 {
     if s.local_sess_id == SIDS_ALT[node] {
         return S_PROBE;
     }
+    if s.local_sess_id == SIDS_H2[node] {
+        return S_HOSTILE2;
+    }
     S_UNKNOWN
+}
+
+/// Who is at the other end of a session, by its peer address (and peer node id for the
+/// unsecured twin peers).
+pub fn peer_code(s: &VerifSession) -> u8 {
+    if matches!(s.mode, SessionMode::Group { .. }) {
+        return P_UNKNOWN;
+    }
+    let a = s.peer_addr.canonical();
+    for n in 0..3usize {
+        if a == crate::sim::net::node_addr(n).canonical() {
+            return n as u8;
+        }
+    }
+    if a == h2_addr().canonical() {
+        return if s.encrypted { P_H2 } else { P_UNKNOWN };
+    }
+    if !s.encrypted && (0..3u8).any(|j| a == twin_addr(j).canonical()) {
+        for k in 0..3u8 {
+            if s.peer_nodeid == Some(twin_node(k)) {
+                return P_TWIN0 + k;
+            }
+        }
+    }
+    P_UNKNOWN
 }
 
 impl Watch {
@@ -458,6 +522,7 @@ impl Watch {
                     local_sid: s.local_sess_id,
                     exch_id: x.exch_id,
                     initiator: x.initiator,
+                    sess_uid: s.id,
                 };
                 let iv = self.open.entry(key).or_insert(Interval {
                     first: now,
@@ -466,6 +531,8 @@ impl Watch {
                     ap_last: now,
                     owned_seen: false,
                     dropped_seen: false,
+                    ap_longest: (now, 0),
+                    ap_since: None,
                     mark,
                 });
                 iv.last = now;
@@ -473,10 +540,16 @@ impl Watch {
                 if x.accept_pending {
                     iv.accept_pending_seen = true;
                     iv.ap_last = now;
+                    let since = *iv.ap_since.get_or_insert(now);
+                    if now - since >= iv.ap_longest.1 {
+                        iv.ap_longest = (since, now - since);
+                    }
                 } else if x.dropped {
                     iv.dropped_seen = true;
+                    iv.ap_since = None;
                 } else {
                     iv.owned_seen = true;
+                    iv.ap_since = None;
                 }
             }
         }
@@ -640,6 +713,7 @@ fn handle_info(node: usize, m: &Matter<'_>, idstr: &str) -> Option<HandleInfo> {
         local_sid: s.local_sess_id,
         exch_id: x.exch_id,
         initiator: x.initiator,
+        peer: peer_code(s),
     })
 }
 
@@ -703,6 +777,15 @@ async fn handler<C: Crypto>(nc: &NodeCtx<'_, C>, mut ex: Exchange<'_>, hid: u32,
             M_HOLD_DROP => {
                 sleep_opt(t.hold_ms as u64).await;
                 return Why::Done;
+            }
+            M_NEXT | M_HOLD_NEXT => {
+                if t.mode == M_HOLD_NEXT {
+                    sleep_opt(t.hold_ms as u64).await;
+                }
+                if t.last {
+                    return Why::Done;
+                }
+                continue;
             }
             M_HOLD => sleep_opt(t.hold_ms as u64).await,
             M_ACK_FIRST => match exec::with_timeout(T_SEND_MS, ex.acknowledge()).await {
@@ -1047,6 +1130,10 @@ struct Injector<'a, C> {
     unsec_ctr: Cell<u32>,
     s1_pase: bool,
     fill: bool,
+    /// H2's session with the twins' target node (twin scenarios that need it)
+    hs2: Option<HSess>,
+    /// message counters of the unsecured twin peers
+    twin_ctr: [Cell<u32>; 3],
 }
 
 impl<C: Crypto> Injector<'_, C> {
@@ -1256,6 +1343,184 @@ impl<C: Crypto> Injector<'_, C> {
 }
 
 // ---------------------------------------------------------------------------------------------
+// The twin peers (family "twins", see c10_twins.rs)
+// ---------------------------------------------------------------------------------------------
+
+impl<C: Crypto> Injector<'_, C> {
+    /// The counter of the newest message the node sent to twin peer `k` (from the tap).
+    fn last_ctr_to_twin(&self, tw: &TwinSpec, k: usize) -> Option<u32> {
+        let pe = &tw.peers[k];
+        let (addr, unsec) = match pe.kind {
+            TwinKind::Unsec => (twin_addr(pe.addr_k), true),
+            TwinKind::SecH => (self.addr[2], false),
+            TwinKind::SecH2 => (h2_addr(), false),
+        };
+        let node = tw.node as usize;
+        self.hub.with_tap(|t| {
+            t.iter()
+                .rev()
+                .filter(|e| !e.injected && e.dgram.src == node && e.dgram.dst_addr == addr)
+                .filter_map(|e| wire::peek(&e.dgram.bytes))
+                .find(|i| {
+                    if unsec {
+                        i.session_id == 0 && i.dst_node.map(|d| d == twin_node(k as u8)).unwrap_or(true)
+                    } else {
+                        i.session_id != 0
+                    }
+                })
+                .map(|i| i.ctr)
+        })
+    }
+
+    /// Encodes one message of twin peer `k` and puts it on the wire.
+    #[allow(clippy::too_many_arguments)]
+    fn twin_wire(&self, tw: &TwinSpec, k: usize, seq: u16, opener: bool, sack: bool, op: OpClass, meta: (u16, u8), r: bool, ack: Option<u32>, payload: &[u8]) {
+        let node = tw.node as usize;
+        let pe = &tw.peers[k];
+        let mut hp = HdrParams {
+            sess_id: 0,
+            ctr: 0,
+            group: false,
+            control: false,
+            src: None,
+            dst_uni: None,
+            dst_grp: None,
+            exch_id: pe.exch_id,
+            proto_id: meta.0,
+            opcode: meta.1,
+            initiator: true,
+            reliable: r,
+            ack,
+            vendor: None,
+        };
+        let mut skipped: Option<&'static str> = None;
+        let (bytes, from): (Option<Vec<u8>>, Address) = match pe.kind {
+            TwinKind::Unsec => {
+                let c = self.twin_ctr[k].get();
+                self.twin_ctr[k].set(c.wrapping_add(1));
+                hp.ctr = c;
+                hp.src = Some(twin_node(k as u8));
+                (encode_plain(self.crypto, &hp, payload).ok(), twin_addr(pe.addr_k))
+            }
+            TwinKind::SecH => {
+                let hs = &self.hs[node];
+                let c = hs.ctr.get();
+                hs.ctr.set(c.wrapping_add(1));
+                hp.sess_id = SIDS[node][S_HOSTILE as usize];
+                hp.ctr = c;
+                (encode(self.crypto, &hp, &hs.k_h2n, if hs.pase { 0 } else { H_NODE }, payload).ok(), self.addr[2])
+            }
+            TwinKind::SecH2 => match &self.hs2 {
+                Some(hs) => {
+                    let c = hs.ctr.get();
+                    hs.ctr.set(c.wrapping_add(1));
+                    hp.sess_id = SIDS_H2[node];
+                    hp.ctr = c;
+                    (encode(self.crypto, &hp, &hs.k_h2n, if hs.pase { 0 } else { H2_NODE }, payload).ok(), h2_addr())
+                }
+                None => {
+                    skipped = Some("no-h2-session");
+                    (None, h2_addr())
+                }
+            },
+        };
+        if bytes.is_none() && skipped.is_none() {
+            skipped = Some("encode-failed");
+        }
+        self.sh.log(
+            node,
+            EvKind::Twin {
+                k: k as u8,
+                peer: tw.code(k),
+                kind: pe.kind,
+                sess: pe.kind.sess_tag(),
+                exch_id: pe.exch_id,
+                seq,
+                opener,
+                sack,
+                op,
+                r,
+                ack,
+                ctr: hp.ctr,
+                skipped,
+            },
+        );
+        if let Some(b) = bytes {
+            self.hub.inject(node, from, b, 0);
+        }
+    }
+
+    #[allow(clippy::too_many_arguments)]
+    fn twin_send(&self, tw: &TwinSpec, k: usize, seq: u16, opener: bool, op: OpClass, meta: (u16, u8), r: bool, ack: TwinAck, mode: u8, hold_ms: u16, last: bool) {
+        let pe = &tw.peers[k];
+        let tag = Tag {
+            src: tw.code(k),
+            dst: tw.node,
+            sess: pe.kind.sess_tag(),
+            exch_id: pe.exch_id,
+            i: true,
+            app: TWIN_APP0 + k as u8,
+            seq,
+            mode,
+            last,
+            hold_ms,
+            dir: 0,
+        };
+        let payload = op_payload(op, &make_payload(&tag, (k * 11 + seq as usize * 3) % 32));
+        let ack = match ack {
+            TwinAck::None => None,
+            TwinAck::Bogus => Some(0x0bad_1000 + seq as u32),
+            TwinAck::Piggy => self.last_ctr_to_twin(tw, k),
+            TwinAck::SackFirst => {
+                if let Some(c) = self.last_ctr_to_twin(tw, k) {
+                    self.twin_wire(tw, k, seq, false, true, OpClass::Sack, (0, 0x10), false, Some(c), &[]);
+                }
+                None
+            }
+        };
+        self.twin_wire(tw, k, seq, opener, false, op, meta, r, ack, &payload);
+    }
+
+    /// Plays the twin peers' timeline (opening messages and follow-ups at their times).
+    async fn run_twins(&self, tw: &TwinSpec) {
+        // (time, order, peer, Some(step index) / None = opening message)
+        let mut tl: Vec<(u32, usize, usize, Option<usize>)> = Vec::new();
+        for (k, pe) in tw.peers.iter().enumerate() {
+            tl.push((pe.open_ms, k, k, None));
+        }
+        for (i, s) in tw.steps.iter().enumerate() {
+            tl.push((s.at_ms, 8 + i, s.peer as usize, Some(i)));
+        }
+        tl.sort();
+        let mut seq = [0u16; 3];
+        for (at, _, k, step) in tl {
+            if k >= tw.peers.len() || k >= 3 {
+                continue;
+            }
+            let t = self.sh.t0 + (tw.t_ms + at) as u64 * 1000;
+            if t > clock::now() {
+                sleep_until(t).await;
+            }
+            let pe = &tw.peers[k];
+            match step {
+                None => self.twin_send(tw, k, 0, true, pe.open_op, op_meta(pe.open_op), pe.open_r, TwinAck::None, pe.open_mode, pe.hold_ms, false),
+                Some(i) => {
+                    let s = &tw.steps[i];
+                    seq[k] += 1;
+                    let (op, meta) = match (s.op, pe.open_op, pe.kind) {
+                        (0, OpClass::Pbkdf, _) => (OpClass::Data, (0u16, 0x22u8)), // PASEPake1
+                        (0, OpClass::Sigma1, _) => (OpClass::Data, (0, 0x32)),   // CASESigma3
+                        (2, _, _) => (OpClass::StatusOther, op_meta(OpClass::StatusOther)),
+                        _ => (OpClass::Data, op_meta(OpClass::Data)),
+                    };
+                    self.twin_send(tw, k, seq[k], false, op, meta, s.r, s.ack, s.mode, s.hold_ms, s.last);
+                }
+            }
+        }
+    }
+}
+
+// ---------------------------------------------------------------------------------------------
 // Outcome
 // ---------------------------------------------------------------------------------------------
 
@@ -1351,13 +1616,31 @@ pub fn run_case(p: &Params) -> Outcome {
     hub.set_up(2, false);
     let addr = [hub.addr(0), hub.addr(1), hub.addr(2)];
 
+    // ---- the smallest table configuration (cargo feature `small-tables`: 3 sessions x 3 exchanges):
+    // the world is cut down to what fits - disturbed session 0, the probe session and the session
+    // with H (a full table); a twins scenario keeps only the probe session, which leaves two entries
+    // for the unsecured twin peers. No group key ring, no filler sessions.
+    let small = SMALL_TABLES;
+    let twin_small = small && p.twins.is_some();
+    let install_tags: &[usize] = if !small {
+        &[0, 1, 2]
+    } else if twin_small {
+        &[2]
+    } else {
+        &[0, 2]
+    };
+    let install_h = !twin_small;
+
     // ---- group keys at B (real fabric, via the C03 key ring builder)
     let mut kr: Option<Keyring> = None;
-    if p.group {
+    if p.group && !small {
         let mut grng = rng.fork();
         match catch_unwind(AssertUnwindSafe(|| build_keyring_and_node(&mut grng, &mb, &crypto_s, addr[2]))) {
             Ok(Ok(k)) => {
-                let mine: Vec<u16> = SIDS[1].to_vec();
+                let mut mine: Vec<u16> = SIDS[1].to_vec();
+                if p.twins.as_ref().map(|t| t.needs_h2()).unwrap_or(false) {
+                    mine.push(SIDS_H2[1]);
+                }
                 let clash = k.gk.iter().any(|g| mine.contains(&g.sid)) || k.uni.iter().any(|u| mine.contains(&u.local_sid));
                 if clash {
                     out.setup_error = Some("session-id-clash-with-group-keyring".into());
@@ -1385,6 +1668,9 @@ pub fn run_case(p: &Params) -> Outcome {
         let mut k2 = [0u8; 16];
         rand_core::RngCore::fill_bytes(&mut rng, &mut k1);
         rand_core::RngCore::fill_bytes(&mut rng, &mut k2);
+        if !install_tags.contains(&tag) {
+            continue;
+        }
         let pase = tag == 1 && p.s1_pase;
         let (an, bn) = if pase { (0, 0) } else { (A_NODE, B_NODE) };
         let mode = || {
@@ -1428,6 +1714,15 @@ pub fn run_case(p: &Params) -> Outcome {
                 },
             )
         };
+        if !install_h {
+            hs.push(HSess {
+                k_h2n,
+                k_n2h,
+                pase: p.sh_pase,
+                ctr: Cell::new(1 + rng.below(1 << 27) as u32),
+            });
+            continue;
+        }
         match install_session(m, &crypto_s, ln, pn, H_SIDS[n], SIDS[n][3], addr[2], mode, &k_h2n, &k_n2h) {
             Ok(id) => {
                 if n == 0 {
@@ -1448,9 +1743,42 @@ pub fn run_case(p: &Params) -> Outcome {
             ctr: Cell::new(1 + rng.below(1 << 27) as u32),
         });
     }
+    // ---- H2's session with the twins' target node (twin scenarios with a second secure peer)
+    let mut trng = Rng::new(subseed(p.seed, &[31]));
+    let mut hs2: Option<HSess> = None;
+    if let Some(tw) = p.twins.as_ref().filter(|t| t.needs_h2()) {
+        let n = (tw.node as usize).min(1);
+        let mut k_h2n = [0u8; 16];
+        let mut k_n2h = [0u8; 16];
+        rand_core::RngCore::fill_bytes(&mut trng, &mut k_h2n);
+        rand_core::RngCore::fill_bytes(&mut trng, &mut k_n2h);
+        let m: &Matter<'_> = if n == 0 { &ma } else { &mb };
+        let (ln, pn, mode) = if p.sh_pase {
+            (0, 0, SessionMode::Pase { fab_idx: 0 })
+        } else {
+            (
+                if n == 0 { A_NODE } else { B_NODE },
+                H2_NODE,
+                SessionMode::Case {
+                    fab_idx: fab2,
+                    cat_ids: Default::default(),
+                },
+            )
+        };
+        // (when the table has no room the H2 twin peer stays silent: its messages are logged as skipped)
+        if install_session(m, &crypto_s, ln, pn, H2_SIDS[n], SIDS_H2[n], h2_addr(), mode, &k_h2n, &k_n2h).is_ok() {
+            hs2 = Some(HSess {
+                k_h2n,
+                k_n2h,
+                pase: p.sh_pase,
+                ctr: Cell::new(1 + trng.below(1 << 27) as u32),
+            });
+        }
+    }
+    let twin_ctr0 = [1 + trng.below(1 << 27) as u32, 1 + trng.below(1 << 27) as u32, 1 + trng.below(1 << 27) as u32];
     // ---- idle filler sessions
     let mut dummies: [Vec<u32>; 2] = [Vec::new(), Vec::new()];
-    if p.fill {
+    if p.fill && !small {
         for n in 0..2usize {
             let m: &Matter<'_> = if n == 0 { &ma } else { &mb };
             let mut k = 0u16;
@@ -1567,7 +1895,9 @@ pub fn run_case(p: &Params) -> Outcome {
             addr,
             unsec_ctr: Cell::new(1 + rng.below(1 << 27) as u32),
             s1_pase: p.s1_pase,
-            fill: p.fill,
+            fill: p.fill && !small,
+            hs2,
+            twin_ctr: [Cell::new(twin_ctr0[0]), Cell::new(twin_ctr0[1]), Cell::new(twin_ctr0[2])],
         };
         let seed = p.seed;
         let shuffle = p.shuffle;
@@ -1602,6 +1932,9 @@ pub fn run_case(p: &Params) -> Outcome {
                         inj.inject(i, &p.injs[i]);
                     }
                 }));
+                if let Some(tw) = p.twins.as_ref() {
+                    kids.push(Box::pin(inj.run_twins(tw)));
+                }
                 if let Some((t_ms, n, s)) = p.expire {
                     kids.push(Box::pin(async move {
                         sleep_until(sh.t0 + t_ms as u64 * 1000).await;
@@ -1635,10 +1968,20 @@ pub fn run_case(p: &Params) -> Outcome {
                 hub_ref.set_adversary(None);
                 sh.phase.set(2);
                 sh.log(0, EvKind::Phase(2));
+                // idle = no handler running for a whole second: datagrams of the disturbance phase may
+                // still be queued in front of a node whose RX slot was held until this very moment (a
+                // message for an owned exchange whose owner was sending); they are accepted - and their
+                // handlers start - only now
+                let mut idle_for = 0;
                 for _ in 0..(IDLE_WAIT_MS / 50) {
                     if sh.busy[0].get() == 0 && sh.busy[1].get() == 0 {
-                        idle_reached.set(true);
-                        break;
+                        idle_for += 1;
+                        if idle_for > 20 {
+                            idle_reached.set(true);
+                            break;
+                        }
+                    } else {
+                        idle_for = 0;
                     }
                     exec::sleep_ms(50).await;
                 }
@@ -1654,11 +1997,34 @@ pub fn run_case(p: &Params) -> Outcome {
                     let (sa, sb) = (st(nca), st(ncb));
                     if sa != Some(false) || sb != Some(false) {
                         // make room in a filled table (an idle filler session has no waiters)
+                        // (as many as it takes: unsecured sessions of the disturbance phase may have
+                        // evicted the first filler and taken its place)
+                        if small {
+                            // no fillers: idle unsecured sessions and expired sessions without
+                            // exchanges give way
+                            for nc in [nca, ncb] {
+                                let old_probe = nc.sess.get()[S_PROBE as usize];
+                                for s in node::snapshot(nc.m) {
+                                    // (the surviving half of the lost probe session is of no use either)
+                                    if s.exchanges.is_empty() && !s.reserved && (!s.encrypted || s.expired || Some(s.id) == old_probe) {
+                                        nc.m.with_state(|st| {
+                                            st.verif_sessions_mut().remove(s.id);
+                                        });
+                                    }
+                                }
+                            }
+                        }
                         for (nc, d) in [(nca, &dummies[0]), (ncb, &dummies[1])] {
-                            if let Some(id) = d.first() {
-                                nc.m.with_state(|st| {
-                                    st.verif_sessions_mut().remove(*id);
-                                });
+                            for id in d.iter() {
+                                let snap = node::snapshot(nc.m);
+                                if snap.len() < 15 {
+                                    break;
+                                }
+                                if snap.iter().any(|s| s.id == *id) {
+                                    nc.m.with_state(|st| {
+                                        st.verif_sessions_mut().remove(*id);
+                                    });
+                                }
                             }
                         }
                         let mut krng = Rng::new(subseed(seed, &[21]));
